@@ -83,7 +83,21 @@ func tlaSchema(a *aspec.ASpec, s aspec.Schema, depth int) map[string]any {
 		for _, m := range s.Of {
 			r := tlaSchema(a, m, depth+1)
 			if ps, ok := r["props"].([]any); ok {
-				props = append(props, ps...)
+				for _, p := range ps {
+					// a name the wrapper's own `required` lists is required of the merged object
+					pm := p.(map[string]any)
+					for _, n := range s.AlsoReq {
+						if pm["name"] == n && pm["req"] != true {
+							cp := map[string]any{}
+							for k, v := range pm {
+								cp[k] = v
+							}
+							cp["req"] = true
+							p = cp
+						}
+					}
+					props = append(props, p)
+				}
 			}
 			if ad, ok := r["addl"].(map[string]any); ok && ad["k"] != "none" {
 				addl = ad
